@@ -1,7 +1,12 @@
 ---------------------------- MODULE TraceDispatch ----------------------------
 (* Trace validation of run-time dispatch: every BindAll event (one virtual CPU, all 64 entry points resolved by the
    library's own resolvers under CPUID/XGETBV emulation) is checked against Dispatch. *)
-EXTENDS Dispatch, TraceLib
+EXTENDS DispatchLadder, TraceLib
+
+ASSUME TLCSet(12, JsonDeserialize(IOEnv.DTABLE))
+Table == TLCGet(12)            \* entry -> (macro, candidate families), extracted from the *_multibinary.asm sources
+TIdx(entry) == {i \in 1..Len(Table) : Table[i].entry = entry}
+Predicted(entry, cfg) == LET i == CHOOSE j \in TIdx(entry) : TRUE IN Table[i].fams[Ladder(Table[i].macro, cfg)]
 
 VARIABLES l, viol
 IsEv(name) == l <= NEv /\ Tr[l].e = name
@@ -16,12 +21,16 @@ TBind ==
          b == SetOf(e.b)
          bad == {x \in b : ~BindingOk(cfg, x[4], x[3])}
          badg == {g \in Groups : ~GroupOk(b, g)}
+         \* implementation-shaped layer: the transcription of the resolver macros predicts another candidate (or does not know the entry)
+         off == {x \in b : TIdx(x[1]) = {} \/ (TIdx(x[1]) # {} /\ Predicted(x[1], cfg) # x[3])}
      IN Adv(   Chk(Consistent(cfg), "SPEC", "inconsistent-configuration-generated", l, << e.cfg >>)
             \o Chk(bad = {}, "C12", "binding-needs-unavailable-instructions", l,
                    << e.cfg, {<< x[1], x[2], FamilyRequires(x[3]) \ (Avail(cfg) \cup Untested \cup Baseline(x[4])) >> : x \in {y \in bad : y[3] \in KnownFamilies}},
                       {<< x[1], x[2] >> : x \in {y \in bad : y[3] \notin KnownFamilies}} >>)
             \o Chk(badg = {}, "C12", "shared-object-bound-to-different-families", l,
                    << e.cfg, {<< x[1], x[3] >> : x \in {y \in b : \E g \in badg : y[1] \in g}} >>)
+            \o Chk(off = {}, "DRIFT", "ladder-model-predicts-another-candidate", l,
+                   << e.cfg, {<< x[1], x[3], IF TIdx(x[1]) = {} THEN "not in table" ELSE Predicted(x[1], cfg) >> : x \in off} >>)
             \o Chk(e.faults = 0, "C12", "resolver-faulted", l, << e.cfg >>)
             \o Chk(e.abi_bad = 0, "C19", "abi", l, << "resolver", e.abi_name >>)
             \o Chk(e.statics_bad = 0, "C18", "static-write", l, << "resolver wrote more than its binding" >>)
